@@ -830,8 +830,16 @@ def s_clientid(rep, W, rule="S-CLIENTID"):
         hdr_calls += 1
         cid = ("ok", pv.def_term((hs[0][0], "T")))
         hargs = pv.arg_terms(hs[0][0])
-        rep.ob(rule, (fn, "header-of-this-request"), m(("upvar", ANY, "req"), hargs[1]) is not None or hargs[1][0] == "upvar",
-               "client_id_header is applied to %s (the request being served)" % P.show(hargs[1]), where(body, hs[0][0]), nontrivial=False)
+        # the header map the helper reads, expressed in the handler's own terms (the helper may take the request or its
+        # header map): must be the headers of the request being served
+        hb_ = W.body(WD.CLIENT_ID_HEADER_FN)
+        srcs = []
+        for bb2, t2 in hb_.calls():
+            if t2["callee"].get("def") == "actix_http::header::map::HeaderMap::get":
+                srcs.append(E.subst_params(W.prov(hb_).arg_terms(bb2)[0], {i + 1: a for i, a in enumerate(hargs)}))
+        okreq = bool(srcs) and all(m(call("actix_web::request::HttpRequest::headers", ("upvar", ANY, ANY)), x) is not None for x in srcs)
+        rep.ob(rule, (fn, "header-of-this-request"), okreq,
+               "client_id_header reads the header map %s (must be the headers of the request being served)" % [P.show(x) for x in srcs], where(body, hs[0][0]), nontrivial=False)
         for bb, t in body.calls():
             d = t["callee"].get("def", "")
             if d.startswith(WD.SERVER_TY + "::"):
@@ -852,7 +860,7 @@ def s_clientid(rep, W, rule="S-CLIENTID"):
         want = pat.adt("Result", "Ok", ("0", ("ok", call("uuid::parser::<impl uuid::Uuid>::parse_str",
                 ("ok", call("http::header::value::HeaderValue::to_str",
                             ("ok", call("actix_http::header::map::HeaderMap::get",
-                                        call("actix_web::request::HttpRequest::headers", ("param", 2, ANY)),
+                                        pat.OneOf(call("actix_web::request::HttpRequest::headers", ("param", ANY, ANY)), ("param", ANY, ANY)),
                                         pat.const(val="X-Client-Id")))))))))
         rep.ob(rule, (fn, "ok-payload"), m(want, term) is not None,
                "client_id_header returns %s; must be Uuid::parse_str(headers[\"X-Client-Id\"].to_str())" % P.show(term), where(hb))
@@ -1948,6 +1956,9 @@ def term_types(W, body):
     return out
 
 
+EXPECTED_TARGET = {"for_days": "snapshot_days", "for_versions_since": "snapshot_versions"}
+
+
 def c12_arith(rep, W, cfgname, rule="C12"):
     """Threshold arithmetic of the two urgency functions under one build configuration."""
     cfg_adt = W.prog.adt("server::ServerConfig")
@@ -1970,7 +1981,11 @@ def c12_arith(rep, W, cfgname, rule="C12"):
         rep.ob(rule + ".SHAPE", (fn, "two-threshold-tests"), ok2, "%d comparison(s) of the measure against a threshold (need exactly 2 of the form measure >= threshold)" % len(th), where(body))
         if not ok2:
             continue
-        isfield = lambda t: t[0] == "field" and t[1][0] == "param" and t[1][1] == 1 and t[2] in cfg_fields  # noqa: E731
+        # the configured target: a field of the &ServerConfig parameter, or the first parameter itself when the caller
+        # passes the target as a scalar (C12.MAX then requires the call site to pass that very config field)
+        scalar_target = body.locals[1]["ty"] in IV.INT_RANGES
+        isfield = lambda t: (t[0] == "field" and t[1][0] == "param" and t[1][1] == 1 and t[2] in cfg_fields) or \
+                            (scalar_target and t[0] == "param" and t[1] == 1)  # noqa: E731
         lows = [t for t in th if isfield(t[1])]
         highs = [t for t in th if not isfield(t[1])]
         if len(lows) != 1 or len(highs) != 1:
@@ -1979,6 +1994,9 @@ def c12_arith(rep, W, cfgname, rule="C12"):
         (aL, L, posL), (aH, H, posH) = lows[0], highs[0]
         fields_in_H = [y for y in P.walk(H) if isfield(y)]
         params_ok = all(y[1] == 1 for y in P.walk(H) if y[0] == "param")
+        tname = L[2] if L[0] == "field" else EXPECTED_TARGET[fname]
+        rep.ob(rule + ".SHAPE", (fn, "target-is-the-right-setting"), tname == EXPECTED_TARGET[fname],
+               "%s classifies against %s; the statement ties it to %s" % (fname, tname, EXPECTED_TARGET[fname]), where(body), nontrivial=False)
         calls_ok = all(y[1].startswith("core::num::") for y in P.walk(H) if y[0] == "call")
         other_ok = not any(y[0] in ("phi", "upvar", "unknown", "mut") for y in P.walk(H))
         okdep = params_ok and calls_ok and other_ok and set(fields_in_H) == {L}
@@ -1999,10 +2017,10 @@ def c12_arith(rep, W, cfgname, rule="C12"):
         rep.ob(rule + ".SHAPE", (fn, "all-three-outcomes"), seen_ == {"High", "Low", "None"}, "outcomes produced: %s" % sorted(seen_), where(body), nontrivial=False)
         # arithmetic
         tys = term_types(W, body)
-        sty = cfg_fields[L[2]]
+        sty = cfg_fields[L[2]] if L[0] == "field" else body.locals[1]["ty"]
         rng = IV.INT_RANGES.get(sty)
         if rng is None:
-            rep.fail(rule + ".NOFAIL", (fn, "target-type"), "target %s has non-integer type %s" % (L[2], sty), where(body))
+            rep.fail(rule + ".NOFAIL", (fn, "target-type"), "target %s has non-integer type %s" % (tname, sty), where(body))
             continue
         srange = (max(0, rng[0]), rng[1])
 
@@ -2022,7 +2040,7 @@ def c12_arith(rep, W, cfgname, rule="C12"):
         rep.ob(rule + ".NOFAIL", (fn, "no-overflow"), not fnd,
                "threshold arithmetic for every target in [%d, %d]: %s" % (srange[0], srange[1], "; ".join(f_.detail for f_ in fnd) if fnd else
                                                                           "no operation can leave its type range (%d arithmetic site(s))" % len(ip.sites)),
-               where(body), sample={"target": L[2], "type": sty, "sites": [(o, t_, str(r), fits) for o, t_, r, fits in ip.sites], "high_threshold": repr(avH)})
+               where(body), sample={"target": tname, "type": sty, "sites": [(o, t_, str(r), fits) for o, t_, r, fits in ip.sites], "high_threshold": repr(avH)})
         okge, why = IV.ge_sym(avH, srange)
         rep.ob(rule + ".ORDER", (fn, "high>=low"), okge, "high threshold >= low threshold for every target: %s" % why, where(body), sample={"H": P.show(H), "abstract": repr(avH)})
         from fractions import Fraction as Fr
@@ -2067,8 +2085,9 @@ def c12_max(rep, W, rule="C12.MAX"):
                    "without a stored snapshot both urgencies are High (got %s, %s)" % (P.show(a0), P.show(a1)), where(body, line=ln))
         elif has == frozenset(["ok"]):
             days = call("chrono::time_delta::TimeDelta::num_days", call("core::ops::arith::Sub::sub", call("chrono::offset::utc::Utc::now"), ("field", snap, "timestamp")))
-            pd = call(WD.CORE + "::server::SnapshotUrgency::for_days", cfg, days)
-            pvz = call(WD.CORE + "::server::SnapshotUrgency::for_versions_since", cfg, ("field", snap, "versions_since"))
+            # (the target reaches the classifier as &self.config, or as the scalar self.config.<field>)
+            pd = call(WD.CORE + "::server::SnapshotUrgency::for_days", pat.OneOf(cfg, ("field", cfg, "snapshot_days")), days)
+            pvz = call(WD.CORE + "::server::SnapshotUrgency::for_versions_since", pat.OneOf(cfg, ("field", cfg, "snapshot_versions")), ("field", snap, "versions_since"))
             okm = (m(pd, a0) is not None and m(pvz, a1) is not None) or (m(pd, a1) is not None and m(pvz, a0) is not None)
             rep.ob(rule, (fn, "measures-from-pre-request-record"), okm,
                    "with a snapshot: max(%s, %s); must be for_days(&self.config, (now - snapshot.timestamp).num_days()) and "
